@@ -2037,7 +2037,10 @@ func (v *VM) ContractHasTryBlock() bool {
 		}
 		for j := range ictx.tryStack.Len() {
 			eCtx := ictx.tryStack.Peek(j).Value().(*exceptionHandlingContext)
-			if eCtx.State == eTry {
+			// A handler that handleException() will stop at: a try block, or a catch
+			// block that still has its finally block to run (the finally block must
+			// not see what a failed callee has done).
+			if eCtx.State == eTry || (eCtx.State == eCatch && eCtx.HasFinally()) {
 				return true
 			}
 		}
